@@ -191,8 +191,9 @@ def probe_projects():
     # --- validator messages
     for cls, msgs in MESSAGES:
         for m in msgs:
-            for vk in ("length(min = 1, message = %s)", "range(min = 1, max = 5, message = %s)"):
-                fty = "String" if vk.startswith("length") else "i32"
+            for vk in ("length(min = 1, message = %s)", "range(min = 1, max = 5, message = %s)", "email(message = %s)", "url(message = %s)",
+                       "length(max = 9), email(message = %s)"):
+                fty = "i32" if vk.startswith("range") else "String"
                 add("validator-message", cls, m, rg.struct_src("Item", [("a", fty, ['#[validate(%s)]' % (vk % ('"' + m.replace('"', '\\"') + '"'))])],
                                                                derives="Serialize, Deserialize, Validate") + base_cmd(), [])
     return P
